@@ -785,6 +785,76 @@ def c08_late(first: int, api: int, sp: int) -> bool:
     return True
 
 
+# ---- registered METHODS of two same-named classes in different modules (round e seed C08-e: the printed name of a
+#      method was always `Class.method`, also when that is ambiguous) -------------------------------------------------
+def _same_named_method_owners():
+  def make():
+    class Worker:
+      def __init__(self, w=0):
+        self.w = w
+
+      @gin.register
+      def run(self, steps=0):
+        return steps
+    return Worker
+  for mod in ('vw08m.alpha', 'vw08m.beta'):
+    if mod + '.Worker' not in gc._REGISTRY:
+      gin.register('Worker', module=mod)(make())
+
+
+_same_named_method_owners()
+M_SPELL = [('alpha.Worker.run', 0), ('vw08m.alpha.Worker.run', 0), ('beta.Worker.run', 1), ('vw08m.beta.Worker.run', 1),
+           ('Worker.run', None), ('run', None)]
+
+
+def c08_methods(s1: int, s2: int, scoped: bool, api: int) -> bool:
+  """
+  pre: 0 <= s1 < 6 and 0 <= s2 < 6 and 0 <= api < 2
+  """
+  s1, s2, api = rt.pick(s1, 6), rt.pick(s2, 6), rt.pick(api, 2)
+  scoped = rt.flag(scoped)
+  rt.sig(('methods', s1, s2, scoped, api), nontrivial=True)
+  with rt.native():
+    world.fresh()
+    sc = 's/' if scoped else ''
+    want = {}
+    for k, sp in enumerate((s1, s2)):
+      name, owner = M_SPELL[sp]
+      key = '%s%s.steps' % (sc, name)
+      r = _try(lambda: gin.bind_parameter(key, 10 + k) if api == 0 else gin.parse_config('%s = %d\n' % (key, 10 + k)))
+      if owner is None:
+        if r[0] != 'exc':
+          return rt.no('%r names two methods (or a method without its class) but was accepted' % key)
+      else:
+        if r[0] != 'ok':
+          return rt.no('%r rejected: %r' % (key, r))
+        want[owner] = 10 + k
+    full = ['vw08m.alpha.Worker.run', 'vw08m.beta.Worker.run']
+    for owner in (0, 1):
+      r = _try(lambda: gin.query_parameter('%s%s.steps' % (sc, full[owner])))
+      if (owner in want and r != ('ok', want[owner])) or (owner not in want and r[0] == 'ok'):
+        return rt.no('binding of %s: %r, expected %r' % (full[owner], r, want.get(owner)))
+    # the names the config string reports resolve back, each to its own entry, and the text re-parses
+    text = gin.config_str()
+    for line in text.split('\n'):
+      if line.startswith('# Parameters for '):
+        sel = line[len('# Parameters for '):-1].rsplit('/', 1)[-1]
+        r = _try(lambda: gin.get_configurable(sel))
+        if r[0] != 'ok':
+          return rt.no('the name %r reported by config_str() does not resolve back: %r' % (sel, r))
+        shorter = sel.split('.', 1)[1] if sel.count('.') > 1 else None
+        if shorter and _try(lambda: gin.get_configurable(shorter))[0] == 'ok':
+          return rt.no('a shorter suffix %r of the reported name resolves as well' % shorter)
+    world.fresh()
+    r = _try(lambda: gin.parse_config(text))
+    if r[0] != 'ok':
+      return rt.no('config_str() does not re-parse: %r\n%s' % (r, text))
+    for owner in want:
+      if _try(lambda: gin.query_parameter('%s%s.steps' % (sc, full[owner]))) != ('ok', want[owner]):
+        return rt.no('after the re-parse %s is not bound to %r' % (full[owner], want[owner]))
+  return True
+
+
 # every spelling of a macro reference / definition is one key for the finalize hooks too
 from vf.harness.c05 import c05_prefix as c08_refkey  # noqa: E402  (same harness, claimed under C08 as well)
 
@@ -794,6 +864,17 @@ def _names(nvoc):
 
 
 HARNESSES = {
+    'c08_methods': dict(
+        fn='c08_methods',
+        anchors=['gin.config:minimal_selector', 'gin.selector_map:minimal_selector', 'gin.config:parse'],
+        smoke=[dict(s1=0, s2=3, scoped=False, api=0), dict(s1=4, s2=1, scoped=True, api=1), dict(s1=5, s2=2, scoped=False, api=1)],
+        tiers={'quick': dict(split=dict(s1=list(range(6))), budget_s=100),
+               'thorough': dict(split=dict(s1=list(range(6)), s2=list(range(6))), budget_s=100)},
+        bounds='registered methods `run` of two classes both named Worker in two modules: two bindings through 6 '
+               'spellings each (unique short / complete, ambiguous Class.method, bare method), scoped or not, through '
+               'bind_parameter or config text; ambiguous spellings rejected, each binding lands on its own entry, every '
+               'name config_str() reports resolves back and no shorter suffix does, the text re-parses into the same '
+               'bindings'),
     'c08_late': dict(
         fn='c08_late',
         anchors=['gin.config:get_configurable', 'gin.selector_map:get_match', 'gin.config:parse'],
